@@ -313,7 +313,30 @@ def probe_tree():
         n._cached_inputs = {"a": 1}
         n.running = True
         drop = n.__getstate__().get("_cached_inputs") is None
-        _PROBE.update({"reset": reset, "drop": drop, "clearfail": clear_on_fail})
+        # a macro whose value-linked child is marked running: does it come back from a pickle?
+        import pickle
+
+        from . import nodes_c08
+
+        nodes_c08.SPEC_QUEUE.insert(0, {"nodes": [{"gid": 4, "kind": "term"}],
+                                        "slots": {"4": [["A"], ["B"], []]}, "ui": {"A": 5, "B": 6}, "out": 4})
+        m = nodes_c08.Mac8(label="m")
+        m.n4.running = True
+        try:
+            pickle.loads(pickle.dumps(m))
+            relink = True
+        except RuntimeError:
+            relink = False
+        # does one unpickling keep the order of a multiply connected input?
+        nodes_c08.SPEC_QUEUE.insert(0, {"nodes": [{"gid": 4, "kind": "term"}, {"gid": 5, "kind": "term"},
+                                                  {"gid": 6, "kind": "term"}],
+                                        "slots": {"4": [["A"], [], []], "5": [["B"], [], []], "6": [[4, 5], [], []]},
+                                        "ui": {"A": 7, "B": 8}, "out": 6})
+        m2 = nodes_c08.Mac8(label="m2")
+        before = [c.owner.label for c in m2.n6.inputs.a.connections]
+        m3 = pickle.loads(pickle.dumps(m2))
+        order = [c.owner.label for c in m3.n6.inputs.a.connections] == before
+        _PROBE.update({"reset": reset, "drop": drop, "clearfail": clear_on_fail, "relink": relink, "order": order})
     finally:
         os.chdir(cwd)
         shutil.rmtree(d, ignore_errors=True)
@@ -419,13 +442,14 @@ def run_impl(case):
     orig_save = storage.StorageInterface.save
     if kind == "checkpoint":
         node[case["ckpt"]].checkpoint = "pickle"
+        by_gid = node
 
-        def save(self_, node=None, filename=None, **kw):  # noqa: ARG001 - keyword names as in the original
+        def save(self_, node=None, filename=None, **kw):  # keyword names as in the original
             orig_save(self_, node=node, filename=filename, **kw)
             if not cut:
                 cut["files"] = _files()
                 cut["tokens"] = len(sched.trace)
-                cut["live"] = _snapshot(lvs, node)
+                cut["live"] = _snapshot(lvs, by_gid)
                 cut["root"] = (bool(wf.running), bool(wf.failed))
                 shutil.copytree("w", "ckpt_copy", dirs_exist_ok=True)
 
@@ -463,8 +487,12 @@ def run_impl(case):
     except BaseException as e:  # noqa: BLE001
         load_err = f"{type(e).__name__}: {e}"[:200]
     if load_err is not None:
-        return {"obs": ["load-failed"], "stats": {"load_failed": 1},
-                "r": {"load_err": load_err, "files": cut["files"], "kind": kind, "outcome1": outcome1}}
+        r = {"load_err": load_err, "files": cut["files"], "kind": kind, "outcome1": outcome1, "probe": probe,
+             "tokens": cut["tokens"], "trace1": trace1, "trace2": [], "wiring1": wiring1, "wiring2": wiring1}
+        if root_lid not in wiring1:
+            wiring1[root_lid] = _wiring(lvs[-1], wf, node)
+        return {"obs": ["files " + " ".join(os.path.splitext(f)[0] for f in cut["files"]), "load-failed"],
+                "stats": {"load_failed": 1, f"kind:{kind}": 1}, "r": r}
     loaded = _snapshot(lvs2, node2)
     loaded_root = (bool(wf2.running), bool(wf2.failed))
     # ---- C: remove the cause, clear the flags
@@ -604,7 +632,8 @@ def model_input(case, impl):
     lvs = levels_of(case)
     n = case["N"]
     p = r["probe"]
-    lines = [f"cfg {int(p['reset'])} {int(p['drop'])} {int(p['clearfail'])}", f"n {n}"]
+    lines = [f"cfg {int(p['reset'])} {int(p['drop'])} {int(p['clearfail'])} {int(p['relink'])} {int(p['order'])}",
+             f"n {n}"]
     root_lid = lvs[-1]["lid"]
     for lv in lvs:
         lines.append(f"level {lv['lid']}")
@@ -698,8 +727,11 @@ def oracle(case, impl):
     nested = len(lvs) > 1
     dirty = bool(case.get("dirty"))
 
+    # a multiply connected input inside a macro (its fetch priority is the subject of C07)
+    multi_inner = any(len(srcs) > 1 for lv in lvs[:-1] for sl in lv["spec"]["slots"].values() for srcs in sl)
+
     def sig(clause, **kw):
-        return {"clause": clause, "kind": kind, "nested": nested, "dirty": dirty, **kw}
+        return {"clause": clause, "kind": kind, "nested": nested, "dirty": dirty, "multiconn_in_macro": multi_inner, **kw}
 
     if r.get("no_cut"):
         return [{"clause": "checkpoint-never-written", "detail": str(r), "signature": sig("no-checkpoint")}]
@@ -899,7 +931,7 @@ def gen_cases(rng, tier):
                 yield {**base, "kind": "recovery", "fails": [g], "ckpt": None, "dirty": []}
                 yield {**base, "kind": "checkpoint", "fails": [], "ckpt": g, "dirty": [],
                        "exec": [] if len(levels_of(base)) > 1 else base["exec"]}
-    yield {"kind": "malformed", "lines": ["n x", "level", "slot 0 a", "cut somewhere", "endlevel", "run 1", "cfg 1 1"]}
+    yield {"kind": "malformed", "lines": ["n x", "level", "slot 0 a", "cut somewhere", "endlevel", "run 1", "cfg 1 1 1 1"]}
 
 
 def _flat(n, slots, **kw):
@@ -909,8 +941,10 @@ def _flat(n, slots, **kw):
 
 
 def corpus():
-    # C08_inflight_cache_witness: checkpoint written by 1 while 0 is in flight on its executor
-    yield _flat(3, [[[], [], []], [[], [], []], [[1], [0], []]], kind="checkpoint", ckpt=1, exec=[0], exec2=[])
+    # C08_inflight_cache_witness: checkpoint written by 1 while 0 is in flight on its executor (1 sits behind the
+    # root 3, so 0 has been submitted whatever the order of the starting nodes)
+    yield _flat(4, [[[], [], []], [[3], [], []], [[1], [0], []], [[], [], []]], kind="checkpoint", ckpt=1, exec=[0],
+                exec2=[])
     # C08_stale_trigger_witness: 0 raises, 1 (executor) completes; fix = new input for 1; 2 must wait for the re-run 1
     yield _flat(3, [[[], [], []], [[], [], []], [[0], [1], []]], kind="recovery", fails=[0], exec=[1], exec2=[1],
                 dirty=[1], choices=[0, 0, 0, 0], choices2=[0, 0, 0, 0])
